@@ -15,6 +15,9 @@ pub struct Workload {
     pub mode: String,
     pub threads: usize,
     pub open_fault: Option<String>,
+    /// A file whose j-th read fails with EIO (under read fragmentation), so
+    /// that its search ends with an error after some results were produced.
+    pub read_fault: Option<(String, usize)>,
 }
 
 pub fn gen_workload(sub: u64) -> Workload {
@@ -24,7 +27,18 @@ pub fn gen_workload(sub: u64) -> Workload {
     let mode = MODES[rng.below(MODES.len())].to_string();
     let threads = if rng.chance(1, 8) { 9 + rng.below(8) } else { 2 + rng.below(7) };
     let open_fault = if rng.chance(1, 5) { Some(corpus.files[rng.below(corpus.files.len())].0.clone()) } else { None };
-    Workload { corpus, mode, threads, open_fault }
+    let read_fault = if open_fault.is_none() && mode != "sorted" && mode != "quiet" && rng.chance(1, 4) {
+        // prefer a file that has matches early on
+        let cands: Vec<&(String, Vec<u8>)> = corpus.files.iter().filter(|(_, c)| c.len() > 400 && c[..300].windows(3).any(|w| w == b"foo")).collect();
+        if cands.is_empty() {
+            None
+        } else {
+            Some((cands[rng.below(cands.len())].0.clone(), 4 + rng.below(6)))
+        }
+    } else {
+        None
+    };
+    Workload { corpus, mode, threads, open_fault, read_fault }
 }
 
 fn args_for(w: &Workload, threads: usize) -> Vec<String> {
@@ -42,6 +56,9 @@ fn args_for(w: &Workload, threads: usize) -> Vec<String> {
         "sorted" => a.extend(["--sort=path".into(), "--heading".into(), "-n".into()]),
         _ => {}
     }
+    if w.read_fault.is_some() {
+        a.push("--no-mmap".into());
+    }
     if w.mode != "files" {
         a.push("foo".into());
     }
@@ -49,10 +66,25 @@ fn args_for(w: &Workload, threads: usize) -> Vec<String> {
     a
 }
 
+/// True if the block (in this mode's canonical form) belongs to `path`.
+fn block_of(mode: &str, block: &[u8], path: &str) -> bool {
+    let p = format!("w/{path}");
+    match mode {
+        "json" => block.windows(p.len() + 2).any(|w| w[0] == b'"' && &w[1..p.len() + 1] == p.as_bytes() && w[p.len() + 1] == b'"') && block.starts_with(b"{\"type\":\"begin\""),
+        _ => block.starts_with(p.as_bytes()) && matches!(block.get(p.len()), Some(b'\n') | Some(b':') | Some(b'-') | None),
+    }
+}
+
 /// Parses stdout into per-file blocks (canonical bytes per block). An error
 /// means the block structure itself is broken (a file's results not
 /// contiguous, separators misplaced).
 pub fn blocks(mode: &str, out: &[u8]) -> Result<Vec<Vec<u8>>, String> {
+    blocks_tolerating(mode, out, None)
+}
+
+/// `failed`: a file whose search is known to end with an error; when results
+/// are streamed its JSON block is legitimately left without an `end` message.
+pub fn blocks_tolerating(mode: &str, out: &[u8], failed: Option<&str>) -> Result<Vec<Vec<u8>>, String> {
     match mode {
         "heading" | "context-heading" | "sorted" => {
             if out.is_empty() {
@@ -135,8 +167,12 @@ pub fn blocks(mode: &str, out: &[u8]) -> Result<Vec<Vec<u8>>, String> {
                 let path = j["data"]["path"]["text"].as_str().unwrap_or("").to_string();
                 match ty {
                     "begin" => {
-                        if cur.is_some() {
-                            return Err("begin inside an open file block".into());
+                        if let Some((p, b)) = cur.take() {
+                            if failed.map(|f| format!("w/{f}")) == Some(p.clone()) {
+                                v.push(b); // unterminated block of the failed file
+                            } else {
+                                return Err("begin inside an open file block".into());
+                            }
                         }
                         if !seen.insert(path.clone()) {
                             return Err(format!("file {path} reported twice"));
@@ -160,8 +196,12 @@ pub fn blocks(mode: &str, out: &[u8]) -> Result<Vec<Vec<u8>>, String> {
                     },
                     "summary" => {
                         summaries += 1;
-                        if cur.is_some() {
-                            return Err("summary inside an open file block".into());
+                        if let Some((p, b)) = cur.take() {
+                            if failed.map(|f| format!("w/{f}")) == Some(p.clone()) {
+                                v.push(b);
+                            } else {
+                                return Err("summary inside an open file block".into());
+                            }
                         }
                         v.push(mask_times(l));
                     }
@@ -221,12 +261,21 @@ fn judge(w: &Workload, ref_blocks: &[Vec<u8>], reference: &RunOut, got: &RunOut)
         }
         return None;
     }
-    let gb = match blocks(&w.mode, &got.stdout) {
+    let gb = match blocks_tolerating(&w.mode, &got.stdout, w.read_fault.as_ref().map(|(p, _)| p.as_str())) {
         Ok(b) => b,
         Err(e) => return Some(("block-structure-broken".into(), e)),
     };
     let mut a = gb.clone();
     let mut b = ref_blocks.to_vec();
+    if let Some((p, _)) = &w.read_fault {
+        // A file whose search fails part-way contributes a partial block when
+        // results are streamed (one thread) and nothing when they are buffered
+        // per file (several threads); both are fine (C16: any prefix). All the
+        // other blocks must be untouched - in particular nothing of the failed
+        // file may leak into another file's block.
+        a.retain(|x| !block_of(&w.mode, x, p));
+        b.retain(|x| !block_of(&w.mode, x, p));
+    }
     a.sort();
     b.sort();
     if a != b {
@@ -243,9 +292,10 @@ pub fn run_workload(sub: u64, only_seed: Option<u64>, acc: &mut Acc, ctx: &Ctx, 
     let root = ctx.root();
     w.corpus.materialise(&root);
     let cwd = ctx.scratch.path().to_path_buf();
-    let plan: Vec<String> = match &w.open_fault {
-        Some(p) => vec![format!("open_err=/w/{p}:13")],
-        None => vec!["noop=1".into()],
+    let plan: Vec<String> = match (&w.open_fault, &w.read_fault) {
+        (Some(p), _) => vec![format!("open_err=/w/{p}:13")],
+        (None, Some((p, j))) => vec![format!("read_err=/w/{p}:{j}:5"), "read_frag=3".into()],
+        _ => vec!["noop=1".into()],
     };
     acc.mix.inc(&format!("mode:{}", w.mode));
     acc.mix.inc(&format!("threads:{}", w.threads));
@@ -254,7 +304,7 @@ pub fn run_workload(sub: u64, only_seed: Option<u64>, acc: &mut Acc, ctx: &Ctx, 
     let reference = ctx.run(&cwd, &ref_spec, 60);
     acc.evals += 1;
     let mut digest = digest_out(sub, &reference);
-    let ref_blocks = match blocks(&w.mode, &reference.stdout) {
+    let ref_blocks = match blocks_tolerating(&w.mode, &reference.stdout, w.read_fault.as_ref().map(|(p, _)| p.as_str())) {
         Ok(b) => b,
         Err(e) => {
             acc.violation("C08", "reference-block-structure", format!("single-threaded output does not parse into per-file blocks: {e}"), sub, body(sub, &w, &ref_spec, &reference, &reference));
@@ -286,6 +336,8 @@ pub fn run_workload(sub: u64, only_seed: Option<u64>, acc: &mut Acc, ctx: &Ctx, 
             harness_error("the scheduler plugin did not report (was rg built with --cfg ripgrep_verif?)");
         }
         acc.faults.add("open-EACCES", got.fired("open_err"));
+        acc.faults.add("read-EIO-mid-file", got.fired("read_err"));
+        acc.faults.add("read-fragmentation", got.fired("read_frag"));
         perms.insert(fnv(&mask_times(&got.stdout)));
         if let Some((class, summary)) = judge(&w, &ref_blocks, &reference, &got) {
             acc.violation("C08", &class, summary, sub, body(sub, &w, &spec, &reference, &got));
